@@ -131,7 +131,8 @@ func vfGenMsgs(t *rapid.T, c *vfProdCase, maxMsgs int, bigValues bool) {
 		if modern {
 			m.NHeaders = rapid.SampledFrom([]int{0, 0, 0, 1, 3}).Draw(t, fmt.Sprintf("m%d.hdrs", i))
 		}
-		m.HasTs = rapid.IntRange(0, 3).Draw(t, fmt.Sprintf("m%d.ts", i)) == 0
+		m.HasTs = rapid.IntRange(0, 2).Draw(t, fmt.Sprintf("m%d.ts", i)) == 0
+		m.TsOff = rapid.IntRange(-300, 300).Draw(t, fmt.Sprintf("m%d.tsOff", i))
 		c.Msgs = append(c.Msgs, m)
 	}
 }
